@@ -87,50 +87,56 @@ IDENTITY_REQS = [
 # decoders: acceptance gated by the checked constructors and by identity / zero exclusion (draft-08 octets_to_*)
 DECODER_REQS = [
     ('bbsplus::keys::BBSplusPublicKey::from_bytes', [
-        {'id': 'point-valid', 'what': 'G2 point validity (curve, subgroup) gates acceptance', 'gate_callee': VALIDITY, 'cover': ['bytes']},
+        {'id': 'point-valid', 'what': 'G2 point validity (curve, subgroup) gates acceptance', 'gate_callee': VALIDITY, 'per_item': True, 'cover': ['bytes']},
         {'id': 'pk-nonidentity', 'what': 'identity public key refused', 'alts': IDENT_ALTS, 'cover': ['bytes']},
     ]),
     ('bbsplus::keys::BBSplusPublicKey::from_coordinates', [
-        {'id': 'point-valid', 'what': 'G2 point validity gates acceptance', 'gate_callee': VALIDITY, 'cover': ['x', 'y']},
+        {'id': 'point-valid', 'what': 'G2 point validity gates acceptance', 'gate_callee': VALIDITY, 'per_item': True, 'cover': ['x', 'y']},
         {'id': 'pk-nonidentity', 'what': 'identity public key refused', 'alts': IDENT_ALTS, 'cover': ['x', 'y']},
     ]),
     ('bbsplus::keys::BBSplusSecretKey::from_bytes', [
-        {'id': 'scalar-range', 'what': 'scalar < r gates acceptance', 'gate_callee': VALIDITY, 'cover': ['bytes']},
+        {'id': 'scalar-range', 'what': 'scalar < r gates acceptance', 'gate_callee': VALIDITY, 'per_item': True, 'cover': ['bytes']},
         {'id': 'sk-nonzero', 'what': 'the zero scalar is refused as a secret key (its public key is the identity)',
          'alts': [{'gate_callee': ['is_zero']}, {'gate_callee': ['PartialEq'], 'const': ['ZERO']}], 'cover': ['bytes']},
     ]),
     ('bbsplus::signature::BBSplusSignature::from_bytes', [
-        {'id': 'point-valid', 'what': 'G1 point validity gates acceptance', 'gate_callee': VALIDITY, 'cover': ['data']},
+        {'id': 'point-valid', 'what': 'G1 point validity gates acceptance', 'gate_callee': VALIDITY, 'per_item': True, 'cover': ['data']},
         {'id': 'A-nonidentity', 'what': 'A = identity refused', 'alts': IDENT_ALTS, 'cover': ['data']},
         {'id': 'e-nonzero', 'what': 'e = 0 refused', 'alts': [{'gate_callee': ['is_zero']}, {'gate_callee': ['PartialEq'], 'const': ['ZERO']}], 'cover': ['data']},
     ]),
     ('bbsplus::proof::BBSplusPoKSignature::from_bytes', [
-        {'id': 'point-valid', 'what': 'G1 point validity gates acceptance', 'gate_callee': VALIDITY, 'cover': ['bytes']},
+        {'id': 'point-valid', 'what': 'G1 point validity gates acceptance', 'gate_callee': VALIDITY, 'per_item': True, 'cover': ['bytes']},
         {'id': 'points-nonidentity', 'what': 'identity proof points refused', 'alts': IDENT_ALTS, 'cover': ['bytes']},
-        {'id': 'scalars-nonzero', 'what': 'octets_to_proof: a zero scalar is refused (fixed scalars and, quantified over all of them, the hidden-message responses)',
-         'alts': [{'gate_callee': ['is_zero']}, {'gate_callee': ['PartialEq'], 'const': ['ZERO']}], 'cover': ['bytes'], 'min_gates': 2},
+        {'id': 'scalars-nonzero', 'what': 'octets_to_proof: a zero scalar is refused (which members are tested: rule_decoded_values_tested)',
+         'alts': [{'gate_callee': ['is_zero']}, {'gate_callee': ['PartialEq'], 'const': ['ZERO']}], 'cover': ['bytes']},
     ]),
     ('bbsplus::proof::BBSplusZKPoK::from_bytes', [
-        {'id': 'scalar-range', 'what': 'scalar < r gates acceptance', 'gate_callee': VALIDITY, 'cover': ['bytes']},
+        {'id': 'scalar-range', 'what': 'scalar < r gates acceptance', 'gate_callee': VALIDITY, 'per_item': True, 'cover': ['bytes']},
     ]),
     ('bbsplus::commitment::BBSplusCommitment::from_bytes', [
-        {'id': 'point-valid', 'what': 'G1 point validity gates acceptance', 'gate_callee': VALIDITY, 'cover': ['bytes']},
+        {'id': 'point-valid', 'what': 'G1 point validity gates acceptance', 'gate_callee': VALIDITY, 'per_item': True, 'cover': ['bytes']},
     ]),
     ('bbsplus::commitment::BlindFactor::from_bytes', [
-        {'id': 'scalar-range', 'what': 'scalar < r gates acceptance', 'gate_callee': VALIDITY, 'cover': ['bytes']},
+        {'id': 'scalar-range', 'what': 'scalar < r gates acceptance', 'gate_callee': VALIDITY, 'per_item': True, 'cover': ['bytes']},
     ]),
 ]
 
 
 # the verifier itself refuses what the octet decoders refuse, however the key and the signature objects were built (pub fields, serde)
 ZERO_ALTS = [{'gate_callee': ['is_zero']}, {'gate_callee': ['PartialEq'], 'const': ['ZERO']}]
+def _proof_scalar_reqs():
+    out = []
+    for f in ('e_cap', 'r1_cap', 'r3_cap', 'challenge'):
+        out.append({'id': 'scalars-nonzero:' + f, 'what': 'a proof whose %s is zero is refused by the verifier (as octets_to_proof does)' % f,
+                    'alts': ZERO_ALTS, 'cover': ['self.' + f], 'pure': ['self.' + f]})
+    out.append({'id': 'scalars-nonzero:m_cap', 'what': 'a proof with a zero response m^_j is refused by the verifier (every one of them is tested)',
+                'alts': ZERO_ALTS, 'cover': ['self.m_cap'], 'pure': ['self.m_cap'], 'quantifier': 'forall'})
+    return out
+
+
 PROOF_VALUE_REQS = [
-    (POK + 'proof_verify', [
-        {'id': 'scalars-nonzero', 'what': 'a proof with a zero scalar is refused by the verifier (as octets_to_proof does)', 'alts': ZERO_ALTS, 'cover': ['self'], 'pure': ['self'], 'min_gates': 2},
-    ]),
-    (POK + 'blind_proof_verify', [
-        {'id': 'scalars-nonzero', 'what': 'a proof with a zero scalar is refused by the verifier (as octets_to_proof does)', 'alts': ZERO_ALTS, 'cover': ['self'], 'pure': ['self'], 'min_gates': 2},
-    ]),
+    (POK + 'proof_verify', _proof_scalar_reqs()),
+    (POK + 'blind_proof_verify', _proof_scalar_reqs()),
 ]
 VERIFY_VALUE_REQS = [
     (SIG + 'verify', [
@@ -143,4 +149,15 @@ VERIFY_VALUE_REQS = [
         {'id': 'A-nonidentity', 'what': 'a signature with A = identity is refused by the verifier', 'alts': IDENT_ALTS, 'cover': ['self'], 'pure': ['self']},
         {'id': 'e-nonzero', 'what': 'a signature with e = 0 is refused by the verifier', 'alts': ZERO_ALTS, 'cover': ['self'], 'pure': ['self']},
     ]),
+]
+
+
+# members of the objects the octet decoders return, and the value of each that the decoder refuses (draft-08 octets_to_proof, octets_to_signature,
+# octets_to_pubkey; the secret key and e are in 1 .. r - 1)
+DECODED_MEMBERS = [
+    ('bbsplus::proof::BBSplusPoKSignature::from_bytes', 'BBSplusPoKSignature',
+     [('Abar', 'identity'), ('Bbar', 'identity'), ('D', 'identity'), ('e_cap', 'zero'), ('r1_cap', 'zero'), ('r3_cap', 'zero'), ('m_cap', 'zero'), ('challenge', 'zero')]),
+    ('bbsplus::signature::BBSplusSignature::from_bytes', 'BBSplusSignature', [('A', 'identity'), ('e', 'zero')]),
+    ('bbsplus::keys::BBSplusPublicKey::from_bytes', 'BBSplusPublicKey', [('0', 'identity')]),
+    ('bbsplus::keys::BBSplusSecretKey::from_bytes', 'BBSplusSecretKey', [('0', 'zero')]),
 ]
